@@ -23,7 +23,13 @@ PreIsIni(c) == c.setting \in {"stack", "inikey"}
 Winners(c) ==
     IF Present(c.cmd) THEN {c.cmd}
     ELSE IF Present(c.ini) THEN (IF Present(c.pre) /\ ~PreIsIni(c) THEN {c.ini, c.pre} ELSE {c.ini})
-    ELSE IF Present(c.env) \/ Present(c.pre) \/ Present(c.pini) THEN {c.env, c.pre, c.pini} \ {"-"}
+    ELSE IF Present(c.pre) \/ Present(c.pini) THEN {c.env, c.pre, c.pini} \ {"-"}
+    \* app: a default the application ships in init_params::cfg.  It replaces the built-in default, so the
+    \* command line and PIKA_COMMANDLINE_OPTIONS override it; the property does not order it against the
+    \* environment variable (in pika the variable only feeds the default of the ini entry, which the
+    \* application's entry then replaces), so either is accepted there
+    ELSE IF Present(c.env) THEN {c.env, c.app} \ {"-"}
+    ELSE IF Present(c.app) THEN {c.app}
     ELSE {"D"}
 \* "K" is a keyword value (--pika:threads=cores) that denotes the same as the built-in default
 Canon(S) == {IF v = "K" THEN "D" ELSE v : v \in S}
